@@ -69,6 +69,8 @@ extern "C" void harness(void)
   wantDflt = op1(oa, f.dflt);
   // a second unary apply on the other operand with the same functor object (its cache is per call)
   { MTBDD r2 = fn(mg); Tab w2; for (unsigned a = 0; a < NA; ++a) w2.v[a] = op1(oa, g.t.v[a]); same(r2, w2, 20); CHECK((r2 == r) == w2.same(want), 21); }
+  // ... and a third one after the parameter of the functor object has changed: every apply is pointwise for the functor as it is then
+  { const unsigned ob = (oa + 1 + pick(3)) & 3; fn.o = ob; MTBDD r3 = fn(mf); Tab w3; for (unsigned a = 0; a < NA; ++a) w3.v[a] = op1(ob, f.t.v[a]); same(r3, w3, 24); CHECK((r3 == r) == w3.same(want), 25); fn.o = oa; }
 #elif KIND == 2
   MTBDD mh = h.make(ORDER); same(mh, h.t, 22);
   F3 fn(oa); MTBDD r = fn(mf, mg, mh);
